@@ -21,7 +21,9 @@
 //  1. map-linearizability  container.MutexMap and builtInFunctions.NewBuiltInFunctionContainer():
 //     -rounds rounds per (object, scenario); barrier-released goroutines, call/return stamps from
 //     one sync/atomic counter, every history checked against the sequential map specification by
-//     porcupine AND by an independent search (a disagreement is an internal error, exit 2).
+//     an own search (decides every history) AND by porcupine v1.3.0 (100 ms budget per history,
+//     10 s for histories written out as findings); two definite verdicts that disagree are an
+//     internal error (exit 2). -paranoid adds a third, reduction-free search.
 //     Every program is also run a second time without stamps for the race detector.
 //  2. atomics              Counter (sum / tickets / Reset), Flag (test-and-set, mixes), Int64,
 //     Uint32, Uint64, String (only written values, never backwards, final = some last Set).
@@ -54,8 +56,12 @@ import (
 	"time"
 )
 
-// maxFindingsPerSection bounds the findings written out per section (all are counted).
-const maxFindingsPerSection = 10
+// Bounds on the findings written out (all violations are counted): per section for section 3,
+// per (object, scenario) for section 1.
+const (
+	maxFindingsPerSection  = 10
+	maxFindingsPerScenario = 3
+)
 
 type finding struct {
 	Section string      `json:"section"`
